@@ -8,6 +8,7 @@ import (
 	"fmt"
 	"os"
 	"path/filepath"
+	"runtime/debug"
 	"sort"
 	"strconv"
 	"strings"
@@ -120,11 +121,11 @@ func Pick[T any](r *Run, q, t T) T {
 	return q
 }
 
-func (r *Run) Evals(n int64)      { r.evals.Add(n) }
-func (r *Run) Nontrivial(n int64) { r.nontrivial.Add(n) }
-func (r *Run) States(n int64)     { r.states.Add(n) }
+func (r *Run) Evals(n int64)       { r.evals.Add(n) }
+func (r *Run) Nontrivial(n int64)  { r.nontrivial.Add(n) }
+func (r *Run) States(n int64)      { r.states.Add(n) }
 func (r *Run) Transitions(n int64) { r.trans.Add(n) }
-func (r *Run) Traces(n int64)     { r.traces.Add(n) }
+func (r *Run) Traces(n int64)      { r.traces.Add(n) }
 
 // Distinct counts key once towards distinct_nontrivial (for spaces small enough to keep a set).
 func (r *Run) Distinct(key string) {
@@ -353,4 +354,12 @@ func Parallel(n, workers int, f func(shard int)) {
 type Deadline struct{ t time.Time }
 
 func NewDeadline(d time.Duration) Deadline { return Deadline{time.Now().Add(d)} }
-func (d Deadline) Passed() bool             { return time.Now().After(d.t) }
+func (d Deadline) Passed() bool            { return time.Now().After(d.t) }
+
+// BigHeap turns the percentage-driven collector off in favour of a soft memory limit. Enumeration loops
+// whose live heap is tiny but which allocate a real Encoder/Decoder per case otherwise spend most of
+// their time in back-to-back GC cycles (16 workers, a few hundred KiB of live data).
+func BigHeap(limit int64) {
+	debug.SetGCPercent(-1)
+	debug.SetMemoryLimit(limit)
+}
